@@ -87,3 +87,18 @@ Proof.
     eexists. split; [reflexivity|]. destruct (Z.of_nat (Datatypes.length r) <? 0); split; discriminate.
   - destruct A as (e & A & G). rewrite A. pystep. exists e. split; [reflexivity|exact G].
 Qed.
+
+(* ---- the constructor and the four script builders ---- *)
+Lemma script_init_sem ext fuel cmds :
+  sem_script__Script____init__ ext fuel [VList (map vcmd cmds)] = Val (vscript cmds).
+Proof. reflexivity. Qed.
+Lemma script_init_none_sem ext fuel : sem_script__Script____init__ ext fuel [VNone] = Val (vscript []).
+Proof. reflexivity. Qed.
+Lemma p2pkh_script_sem ext fuel h : sem_script__p2pkh_script ext fuel [VBytes h] = Val (vscript (p2pkh_script h)).
+Proof. reflexivity. Qed.
+Lemma p2sh_script_sem ext fuel h : sem_script__p2sh_script ext fuel [VBytes h] = Val (vscript (p2sh_script h)).
+Proof. reflexivity. Qed.
+Lemma p2wpkh_script_sem ext fuel h : sem_script__p2wpkh_script ext fuel [VBytes h] = Val (vscript (p2wpkh_script h)).
+Proof. reflexivity. Qed.
+Lemma p2wsh_script_sem ext fuel h : sem_script__p2wsh_script ext fuel [VBytes h] = Val (vscript (p2wsh_script h)).
+Proof. reflexivity. Qed.
